@@ -1,15 +1,97 @@
-// Package c12facts classifies the method bodies of the six queue implementations of properties C12/C13
-// (syncx/pipe/q, async, mux, mq; queue/syncq; queue/priq) on their normalised source text.
-// A body that matches none of the known shapes makes the queue `Known = false` (reported, never guessed).
+// Package c12facts extracts the facts of properties C12/C13 from the six queue implementations
+// (syncx/pipe/q, async, mux, mq; queue/syncq; queue/priq).
+//
+// Two kinds of facts, both regenerated on every run:
+//
+//  1. Whole-body shape facts. Every method of the queue types is compared, in gofacts' canonical form (locals,
+//     parameters and the receiver renamed in order of appearance, `var x = e` ≡ `x := e`) and with the mutex
+//     Lock/Unlock statements removed (so `defer Unlock` and explicit `Unlock` spellings are the same text), against
+//     the canonical forms of an enumerated family of accepted shapes written below as Go source. The member that
+//     matches gives the behaviour-selecting values (order of the closed/bound tests, wake primitive, …); a body that
+//     matches no member makes the type `Known = false` and never changes a behaviour value.
+//
+//  2. Structural facts read from the AST, independent of (1): mutex coverage of every method that touches a guarded
+//     field (Lock first; Unlock deferred, or explicit before every return, and no guarded field touched after it),
+//     `Wait` only inside a `for` whose condition re-tests emptiness, which list end each method pushes to / takes from,
+//     and the method sets of the queue types over ALL files of their packages.
 package c12facts
 
 import (
 	"fmt"
+	"go/ast"
+	"go/parser"
+	"go/token"
+	"os"
+	"path/filepath"
 	"regexp"
+	"sort"
 	"strings"
 
 	"nvharness/lib/gofacts"
 )
+
+// ---------------------------------------------------------------- canonical bodies
+
+var unlockRe = regexp.MustCompile(`(defer )?\w+ \. (lock|mu) \. (Lock|Unlock) \( \) ;? ?`)
+
+// canonBody: canonical text of a method's body (receiver and parameters renamed too), Lock/Unlock statements removed.
+func canonBody(f *gofacts.File, fd *ast.FuncDecl) string {
+	if fd == nil || fd.Body == nil {
+		return ""
+	}
+	full := strings.Fields(f.Canon(fd))
+	n := len(strings.Fields(f.Canon(fd.Body)))
+	if n > len(full) {
+		return ""
+	}
+	// the names inside the body must be the ones assigned while scanning the whole declaration
+	body := strings.Join(full[len(full)-n:], " ")
+	return strings.TrimSpace(unlockRe.ReplaceAllString(body, ""))
+}
+
+func canonOf(src string) string {
+	fset := token.NewFileSet()
+	af, err := parser.ParseFile(fset, "x.go", "package p\n"+src, parser.SkipObjectResolution)
+	if err != nil || len(af.Decls) == 0 {
+		panic("c12facts: bad template: " + err.Error() + "\n" + src)
+	}
+	f := &gofacts.File{Fset: fset, AST: af}
+	fd, _ := af.Decls[len(af.Decls)-1].(*ast.FuncDecl)
+	return canonBody(f, fd)
+}
+
+type variant struct {
+	src  string
+	vals map[string]string
+}
+
+// match returns the values of the first template whose canonical body equals the method's.
+func match(f *gofacts.File, recv, name string, vs []variant) (map[string]string, bool) {
+	got := canonBody(f, f.Func(recv, name))
+	if got == "" {
+		return nil, false
+	}
+	for _, v := range vs {
+		if canonOf(v.src) == got {
+			return v.vals, true
+		}
+	}
+	return nil, false
+}
+
+func wakeStmt(w string) string {
+	switch w {
+	case "broadcast":
+		return "a.cond.Broadcast()\n"
+	case "signal":
+		return "a.cond.Signal()\n"
+	}
+	return ""
+}
+
+var wakes = []string{"broadcast", "signal", "none"}
+
+// ---------------------------------------------------------------- list queues
 
 // ListQ describes one of the list-based pipe queues (q, async, mux, mq).
 type ListQ struct {
@@ -25,100 +107,156 @@ type ListQ struct {
 	// plain shape facts (C12)
 	AddPushesBack, PriorPushesFront, PopTakesFront, AnywayNoClosedTest, CloseIdempotent, BoundOnlyIfPositive bool
 	TryCloseShape, TryClearShape                                                                             bool // mq only (true for the others)
+	AnywayShape                                                                                              bool // the *Anyway adds are retry loops around the classified add
+	AccessorShape                                                                                            bool // IsClosed / IsCleared / Size / WaitClose / WaitClear
+	ClosesStopChan                                                                                           bool // Close / TryClose close stopChan, TryClear closes clearChan (types that have them)
+	MethodSet                                                                                                bool // the type's methods, over all files of its package, are exactly the modelled ones
 	// wake primitives (C13): "broadcast" | "signal" | "none" | "unknown"
 	AddWake, PriorWake, CloseWake, TryCloseWake string
-	// every public method body is `lock.Lock(); defer lock.Unlock()` first (C13: critical sections are atomic)
+	// structural (AST) facts
 	LockCovered bool
-	// the wait loop is `for <empty> { if closed { return }; cond.Wait() }` (re-tested after every wake-up)
-	WaitLoop bool
+	WaitLoop    bool
 }
 
-const lockRe = `a\.lock\.Lock\(\) defer a\.lock\.Unlock\(\)`
-const closedRe = `if a\.closed \{ return ErrClosed \}`
-
-func boundRe(list string) string {
-	// nested form as written today, or the equivalent merged condition
-	return `(?:if a\.(\w+) > 0 \{ if a\.` + list + `\.Len\(\) >= a\.(\w+) \{ return (\w+) \} \}|if a\.(\w+) > 0 && a\.` + list + `\.Len\(\) >= a\.(\w+) \{ return (\w+) \})`
+type kindInfo struct {
+	file, recv, add, prior, addCtrl, priorCtrl, anyway, ctrlAnyway string
+	size, errFull, ctrlSize, errCtrlFull                           string
+	stopChan, clearChan                                            bool
+	methods                                                        []string
 }
 
-func wakeOf(s string) string {
-	switch s {
-	case "Broadcast":
-		return "broadcast"
-	case "Signal":
-		return "signal"
-	}
-	return "unknown"
+var kindsInfo = map[string]kindInfo{
+	"q": {file: "syncx/pipe/q/q.go", recv: "Q", add: "AddReq", prior: "AddPriorReq", anyway: "AddReqAnyway", size: "reqMaxNum", errFull: "ErrReqQFull",
+		methods: []string{"AddPriorReq", "AddReq", "AddReqAnyway", "Close", "Pop", "PopAnyway", "pop"}},
+	"async": {file: "syncx/pipe/async/q.go", recv: "Q", add: "Add", prior: "AddPrior", anyway: "AddAnyway", size: "size", errFull: "ErrFull",
+		methods: []string{"Add", "AddAnyway", "AddPrior", "Close", "IsClosed", "Pop", "PopAnyway", "Size", "pop"}},
+	"mux": {file: "syncx/pipe/mux/q.go", recv: "Q", add: "AddReq", prior: "AddPriorReq", anyway: "AddReqAnyway", size: "reqMaxNum", errFull: "ErrQFull", stopChan: true,
+		methods: []string{"AddPriorReq", "AddReq", "AddReqAnyway", "Close", "IsClosed", "Pop", "PopAnyway", "WaitClose"}},
+	"mq": {file: "syncx/pipe/mq/mq.go", recv: "MQ", add: "AddReq", prior: "AddPriorReq", addCtrl: "AddCtrl", priorCtrl: "AddPriorCtrl", anyway: "AddReqAnyway",
+		ctrlAnyway: "AddCtrlAnyway", size: "reqMaxNum", errFull: "ErrReqQFull", ctrlSize: "ctrlMaxNum", errCtrlFull: "ErrCtrlQFull", stopChan: true, clearChan: true,
+		methods: []string{"AddCtrl", "AddCtrlAnyway", "AddPriorCtrl", "AddPriorReq", "AddReq", "AddReqAnyway", "Close", "IsCleared", "IsClosed", "Pop", "PopAnyway",
+			"TryClear", "TryClose", "WaitClear", "WaitClose"}},
 }
 
-// classifyAdd: returns (closedFirst, wake, ok)
-func classifyAdd(body, list, push string) (closedFirst bool, bounded bool, wake string, ok bool) {
-	tail := ` a\.` + list + `\.` + push + `\((\w+)\) a\.cond\.(Broadcast|Signal)\(\) return nil \}$`
-	a := regexp.MustCompile(`^\{ ` + lockRe + ` ` + closedRe + ` ` + boundRe(list) + tail)
-	b := regexp.MustCompile(`^\{ ` + lockRe + ` ` + boundRe(list) + ` ` + closedRe + tail)
-	c := regexp.MustCompile(`^\{ ` + lockRe + ` ` + closedRe + tail)
-	same := func(m []string) bool { return m[1] == m[2] && m[4] == m[5] } // the same field on both sides of the bound
-	if m := a.FindStringSubmatch(body); m != nil && same(m) {
-		return true, true, wakeOf(m[8]), true
+const closedChk = "if a.closed {\nreturn ErrClosed\n}\n"
+
+func boundChk(list, size, errFull string, merged bool) string {
+	if merged {
+		return fmt.Sprintf("if a.%s > 0 && a.%s.Len() >= a.%s {\nreturn %s\n}\n", size, list, size, errFull)
 	}
-	if m := b.FindStringSubmatch(body); m != nil && same(m) {
-		return false, true, wakeOf(m[8]), true
-	}
-	if m := c.FindStringSubmatch(body); m != nil {
-		return true, false, wakeOf(m[2]), true
-	}
-	return false, false, "unknown", false
+	return fmt.Sprintf("if a.%s > 0 {\nif a.%s.Len() >= a.%s {\nreturn %s\n}\n}\n", size, list, size, errFull)
 }
 
-const chkRe = `if a\.closed \{ return nil, ErrClosed \}`
+// addVariants: closed test / bound test in either order or no bound test, nested or merged bound, any wake primitive.
+func addVariants(list, push, size, errFull string) []variant {
+	var vs []variant
+	for _, w := range wakes {
+		tail := fmt.Sprintf("a.%s.%s(req)\n%sreturn nil\n}", list, push, wakeStmt(w))
+		head := "func (a *T) M(req interface{}) error {\na.lock.Lock()\ndefer a.lock.Unlock()\n"
+		for _, merged := range []bool{false, true} {
+			b := boundChk(list, size, errFull, merged)
+			vs = append(vs, variant{head + closedChk + b + tail, map[string]string{"closedFirst": "true", "bounded": "true", "wake": w}})
+			vs = append(vs, variant{head + b + closedChk + tail, map[string]string{"closedFirst": "false", "bounded": "true", "wake": w}})
+		}
+		vs = append(vs, variant{head + closedChk + tail, map[string]string{"closedFirst": "true", "bounded": "false", "wake": w}})
+	}
+	return vs
+}
 
-func takeRe(first bool, list string) string {
-	v := `front = `
+const popChk = "if a.closed {\nreturn nil, ErrClosed\n}\n"
+
+func takeSrc(first bool, list string) string {
+	v := "front = "
 	if first {
-		v = `var front = `
+		v = "var front = "
 	}
-	return v + `a\.` + list + `\.Front\(\) if front != nil \{ a\.` + list + `\.Remove\(front\) return front\.Value, nil \}`
+	return fmt.Sprintf("%sa.%s.Front()\nif front != nil {\na.%s.Remove(front)\nreturn front.Value, nil\n}\n", v, list, list)
 }
 
-// classifyPop on an explicit Pop/PopAnyway/pop body. Returns checksClosed ("always", "ifCheckClose", "never"), ctrlFirst, ok.
-func classifyPop(body string, mq bool) (chk string, ctrlFirst bool, ok bool) {
-	empty := `a\.reqList\.Len\(\) == 0`
+// popVariants: the wait loop, then the closed test (always / `if checkClose` / never), then the take order.
+func popVariants(mq bool, withParam bool) []variant {
+	empty := "a.reqList.Len() == 0"
 	if mq {
-		empty = `a\.ctrlList\.Len\(\) == 0 && a\.reqList\.Len\(\) == 0`
+		empty = "a.ctrlList.Len() == 0 && a.reqList.Len() == 0"
 	}
-	loop := `for ` + empty + ` \{ ` + chkRe + ` a\.cond\.Wait\(\) \}`
-	takes := []struct {
-		re        string
-		ctrlFirst bool
-	}{{takeRe(true, "reqList"), true}}
+	head := "func (a *T) M() (interface{}, error) {\n"
+	if withParam {
+		head = "func (a *T) M(checkClose bool) (interface{}, error) {\n"
+	}
+	head += "a.lock.Lock()\ndefer a.lock.Unlock()\nfor " + empty + " {\n" + popChk + "a.cond.Wait()\n}\n"
+	takes := map[string]string{"true": takeSrc(true, "reqList")}
 	if mq {
-		takes = []struct {
-			re        string
-			ctrlFirst bool
-		}{{takeRe(true, "ctrlList") + ` ` + takeRe(false, "reqList"), true}, {takeRe(true, "reqList") + ` ` + takeRe(false, "ctrlList"), false}}
+		takes = map[string]string{"true": takeSrc(true, "ctrlList") + takeSrc(false, "reqList"), "false": takeSrc(true, "reqList") + takeSrc(false, "ctrlList")}
 	}
-	for _, t := range takes {
-		for _, c := range []struct{ re, name string }{{` ` + chkRe, "always"}, {` if checkClose \{ ` + chkRe + ` \}`, "ifCheckClose"}, {``, "never"}} {
-			re := regexp.MustCompile(`^\{ ` + lockRe + ` ` + loop + c.re + ` ` + t.re + ` return nil, ErrSync \}$`)
-			if re.MatchString(body) {
-				return c.name, t.ctrlFirst, true
+	chks := map[string]string{"always": popChk, "never": ""}
+	if withParam {
+		chks["ifCheckClose"] = "if checkClose {\n" + popChk + "}\n"
+	}
+	var vs []variant
+	for cf, t := range takes {
+		for c, chk := range chks {
+			vs = append(vs, variant{head + chk + t + "return nil, ErrSync\n}", map[string]string{"chk": c, "ctrlFirst": cf}})
+		}
+	}
+	return vs
+}
+
+func closeVariants(stopChan bool) []variant {
+	var vs []variant
+	for _, w := range wakes {
+		for _, sc := range []bool{true, false} {
+			s := "func (a *T) Close() {\na.lock.Lock()\ndefer a.lock.Unlock()\nif a.closed {\nreturn\n}\n"
+			if sc {
+				if !stopChan {
+					continue
+				}
+				s += "close(a.stopChan)\n"
+			}
+			s += "a.closed = true\n" + wakeStmt(w) + "}"
+			vs = append(vs, variant{s, map[string]string{"wake": w, "stopChan": fmt.Sprint(sc || !stopChan)}})
+		}
+	}
+	return vs
+}
+
+func tryCloseVariants() []variant {
+	var vs []variant
+	for _, w := range wakes {
+		for _, sc := range []bool{true, false} {
+			for _, ret := range []string{"a.closed", "true"} {
+				s := "func (a *T) TryClose() bool {\na.lock.Lock()\ndefer a.lock.Unlock()\nif a.closed {\nreturn " + ret + "\n}\nif a.ctrlList.Len() == 0 && a.reqList.Len() == 0 {\n"
+				if sc {
+					s += "close(a.stopChan)\n"
+				}
+				s += "a.closed = true\n" + wakeStmt(w) + "}\nreturn a.closed\n}"
+				vs = append(vs, variant{s, map[string]string{"wake": w, "stopChan": fmt.Sprint(sc)}})
 			}
 		}
 	}
-	return "", true, false
+	return vs
 }
 
-type names struct{ add, prior, addCtrl, priorCtrl string }
+func anywaySrc(add, errFull string) string {
+	return fmt.Sprintf("func (a *T) M(req interface{}, ts time.Duration) error {\nvar err error\nfor {\nerr = a.%s(req)\nif err == %s {\ntime.Sleep(ts)\n} else {\nreturn err\n}\n}\n}", add, errFull)
+}
+
+func waitSrc(ch string) string {
+	return fmt.Sprintf("func (a *T) M(ctx context.Context) error {\nselect {\ncase <-ctx.Done():\nreturn ctx.Err()\ncase <-a.%s:\nreturn nil\n}\n}", ch)
+}
+
+func getterSrc(field string) string {
+	return fmt.Sprintf("func (a *T) M() bool {\na.lock.Lock()\ndefer a.lock.Unlock()\nreturn a.%s\n}", field)
+}
+
+func one(src string) []variant { return []variant{{src, map[string]string{}}} }
 
 // LoadListQ classifies one list queue. kind: "q", "async", "mux", "mq".
 func LoadListQ(repo, kind string) ListQ {
-	files := map[string]string{"q": "syncx/pipe/q/q.go", "async": "syncx/pipe/async/q.go", "mux": "syncx/pipe/mux/q.go", "mq": "syncx/pipe/mq/mq.go"}
-	recv := map[string]string{"q": "Q", "async": "Q", "mux": "Q", "mq": "MQ"}[kind]
-	nm := map[string]names{"q": {"AddReq", "AddPriorReq", "", ""}, "async": {"Add", "AddPrior", "", ""}, "mux": {"AddReq", "AddPriorReq", "", ""},
-		"mq": {"AddReq", "AddPriorReq", "AddCtrl", "AddPriorCtrl"}}[kind]
-	q := ListQ{Name: kind, File: files[kind], Known: true, CtrlFirst: true, AddClosedFirst: true, PopChecksClosed: true,
-		TryCloseShape: true, TryClearShape: true, TryCloseWake: "none", AddWake: "unknown", PriorWake: "unknown", CloseWake: "unknown"}
-	f, err := gofacts.Load(repo, files[kind])
+	ki := kindsInfo[kind]
+	q := ListQ{Name: kind, File: ki.file, Known: true, CtrlFirst: true, AddClosedFirst: true, PopChecksClosed: true,
+		TryCloseShape: true, TryClearShape: true, AnywayShape: true, AccessorShape: true, ClosesStopChan: true,
+		TryCloseWake: "none", AddWake: "unknown", PriorWake: "unknown", CloseWake: "unknown"}
+	f, err := gofacts.Load(repo, ki.file)
 	if err != nil {
 		q.Known = false
 		q.Why = append(q.Why, "parse:"+err.Error())
@@ -127,108 +265,138 @@ func LoadListQ(repo, kind string) ListQ {
 	unk := func(what string) { q.Known = false; q.Why = append(q.Why, what) }
 	isMQ := kind == "mq"
 
-	// Add (request list)
-	cf, bounded, wake, ok := classifyAdd(f.Body(recv, nm.add), "reqList", "PushBack")
-	if !ok || !bounded {
-		unk(nm.add)
-	}
-	q.AddWake, q.AddPushesBack, q.BoundOnlyIfPositive = wake, ok, ok && bounded
-	if ok { // an unrecognised body never changes a behaviour-selecting field (Known=false breaks the tie instead)
-		q.AddClosedFirst = cf
-	}
-	// AddPrior
-	_, pb, pwake, ok := classifyAdd(f.Body(recv, nm.prior), "reqList", "PushFront")
-	if !ok {
-		unk(nm.prior)
-	}
-	q.PriorWake, q.PriorPushesFront = pwake, ok
-	if ok {
-		q.PriorBounded = pb
-	}
-	if isMQ {
-		cf2, b2, w2, ok2 := classifyAdd(f.Body(recv, nm.addCtrl), "ctrlList", "PushBack")
-		if !ok2 || !b2 || cf2 != q.AddClosedFirst {
-			unk(nm.addCtrl)
-		}
-		if w2 != q.AddWake {
-			q.AddWake = mixWake(q.AddWake, w2)
-		}
-		_, pb2, pw2, ok3 := classifyAdd(f.Body(recv, nm.priorCtrl), "ctrlList", "PushFront")
-		if !ok3 || pb2 != q.PriorBounded {
-			unk(nm.priorCtrl)
-		}
-		if pw2 != q.PriorWake {
-			q.PriorWake = mixWake(q.PriorWake, pw2)
-		}
-	}
-	// Pop / PopAnyway
-	popBody, anyBody := f.Body(recv, "Pop"), f.Body(recv, "PopAnyway")
-	var popChk, anyChk string
-	var cf1, cfa bool
-	var ok1, oka bool
-	if popBody == "{ return a.pop(true) }" && anyBody == "{ return a.pop(false) }" {
-		chk, c1, okp := classifyPop(f.Body(recv, "pop"), isMQ)
-		ok1, oka, cf1, cfa = okp, okp, c1, c1
-		switch chk {
-		case "ifCheckClose":
-			popChk, anyChk = "always", "never"
-		case "never":
-			popChk, anyChk = "never", "never"
-		case "always":
-			popChk, anyChk = "always", "always"
-		}
-		fd := f.Func(recv, "pop")
-		if fd == nil || !strings.HasPrefix(f.Src(fd.Type), "func(checkClose bool)") {
-			ok1 = false
+	// ordinary add / prior add (request list)
+	if v, ok := match(f, ki.recv, ki.add, addVariants("reqList", "PushBack", ki.size, ki.errFull)); ok && v["bounded"] == "true" {
+		q.AddClosedFirst, q.AddWake = v["closedFirst"] == "true", v["wake"]
+		if v["wake"] == "none" {
+			q.AddWake = "none"
 		}
 	} else {
-		popChk, cf1, ok1 = classifyPop(popBody, isMQ)
-		anyChk, cfa, oka = classifyPop(anyBody, isMQ)
+		unk(ki.add)
 	}
-	if !ok1 || popChk == "ifCheckClose" {
+	if v, ok := match(f, ki.recv, ki.prior, addVariants("reqList", "PushFront", ki.size, ki.errFull)); ok {
+		q.PriorBounded, q.PriorWake = v["bounded"] == "true", v["wake"]
+	} else {
+		unk(ki.prior)
+	}
+	if isMQ {
+		if v, ok := match(f, ki.recv, ki.addCtrl, addVariants("ctrlList", "PushBack", ki.ctrlSize, ki.errCtrlFull)); ok && v["bounded"] == "true" &&
+			(v["closedFirst"] == "true") == q.AddClosedFirst {
+			q.AddWake = mixWake(q.AddWake, v["wake"])
+		} else {
+			unk(ki.addCtrl)
+		}
+		if v, ok := match(f, ki.recv, ki.priorCtrl, addVariants("ctrlList", "PushFront", ki.ctrlSize, ki.errCtrlFull)); ok && (v["bounded"] == "true") == q.PriorBounded {
+			q.PriorWake = mixWake(q.PriorWake, v["wake"])
+		} else {
+			unk(ki.priorCtrl)
+		}
+	}
+	// Pop / PopAnyway (direct bodies, or both delegating to pop(checkClose))
+	popChkV, anyChkV, cf := "", "", "true"
+	okPop := false
+	vp, ok1 := match(f, ki.recv, "Pop", one("func (a *T) Pop() (interface{}, error) {\nreturn a.pop(true)\n}"))
+	va, ok2 := match(f, ki.recv, "PopAnyway", one("func (a *T) PopAnyway() (interface{}, error) {\nreturn a.pop(false)\n}"))
+	_, _ = vp, va
+	if ok1 && ok2 {
+		if v, ok := match(f, ki.recv, "pop", popVariants(isMQ, true)); ok {
+			okPop, cf = true, v["ctrlFirst"]
+			switch v["chk"] {
+			case "ifCheckClose":
+				popChkV, anyChkV = "always", "never"
+			default:
+				popChkV, anyChkV = v["chk"], v["chk"]
+			}
+		}
+	} else {
+		v1, o1 := match(f, ki.recv, "Pop", popVariants(isMQ, false))
+		v2, o2 := match(f, ki.recv, "PopAnyway", popVariants(isMQ, false))
+		if o1 && o2 && v1["ctrlFirst"] == v2["ctrlFirst"] {
+			okPop, cf, popChkV, anyChkV = true, v1["ctrlFirst"], v1["chk"], v2["chk"]
+		}
+	}
+	if okPop {
+		q.PopChecksClosed, q.CtrlFirst = popChkV == "always", cf == "true"
+		q.AnywayNoClosedTest = anyChkV == "never"
+		if anyChkV != "never" {
+			unk("PopAnyway")
+		}
+	} else {
 		unk("Pop")
 	}
-	if !oka || anyChk == "ifCheckClose" || cfa != cf1 {
-		unk("PopAnyway")
-	}
-	if ok1 {
-		q.PopChecksClosed = popChk == "always"
-	}
-	q.AnywayNoClosedTest = oka && anyChk == "never"
-	if ok1 {
-		q.CtrlFirst = cf1
-	}
-	q.PopTakesFront = ok1 && oka
-	q.WaitLoop = ok1 && oka
 	// Close
-	closeRe := regexp.MustCompile(`^\{ ` + lockRe + ` if a\.closed \{ return \}( close\(a\.stopChan\))? a\.closed = true a\.cond\.(Broadcast|Signal)\(\) \}$`)
-	closeNoWake := regexp.MustCompile(`^\{ ` + lockRe + ` if a\.closed \{ return \}( close\(a\.stopChan\))? a\.closed = true \}$`)
-	cb := f.Body(recv, "Close")
-	if m := closeRe.FindStringSubmatch(cb); m != nil {
-		q.CloseWake, q.CloseIdempotent = wakeOf(m[2]), true
-	} else if closeNoWake.MatchString(cb) {
-		q.CloseWake, q.CloseIdempotent = "none", true
+	if v, ok := match(f, ki.recv, "Close", closeVariants(ki.stopChan)); ok {
+		q.CloseWake, q.CloseIdempotent = v["wake"], true
+		if v["stopChan"] != "true" {
+			q.ClosesStopChan = false
+		}
 	} else {
 		unk("Close")
 	}
 	if isMQ {
-		tc := regexp.MustCompile(`^\{ ` + lockRe + ` if a\.closed \{ return a\.closed \} if a\.ctrlList\.Len\(\) == 0 && a\.reqList\.Len\(\) == 0 \{ close\(a\.stopChan\) a\.closed = true( a\.cond\.(Broadcast|Signal)\(\))? \} return a\.closed \}$`)
-		if m := tc.FindStringSubmatch(f.Body(recv, "TryClose")); m != nil {
-			q.TryCloseWake = "none"
-			if m[1] != "" {
-				q.TryCloseWake = wakeOf(m[2])
+		if v, ok := match(f, ki.recv, "TryClose", tryCloseVariants()); ok {
+			q.TryCloseWake = v["wake"]
+			if v["stopChan"] != "true" {
+				q.ClosesStopChan = false
 			}
 		} else {
 			q.TryCloseShape, q.TryCloseWake = false, "unknown"
 			unk("TryClose")
 		}
-		tcl := `{ a.lock.Lock() defer a.lock.Unlock() if a.cleared { return a.cleared } if a.closed { if a.ctrlList.Len() == 0 && a.reqList.Len() == 0 { close(a.clearChan) a.cleared = true } } return a.cleared }`
-		if f.Body(recv, "TryClear") != tcl {
+		tcl := "func (a *T) TryClear() bool {\na.lock.Lock()\ndefer a.lock.Unlock()\nif a.cleared {\nreturn a.cleared\n}\nif a.closed {\nif a.ctrlList.Len() == 0 && a.reqList.Len() == 0 {\nclose(a.clearChan)\na.cleared = true\n}\n}\nreturn a.cleared\n}"
+		if _, ok := match(f, ki.recv, "TryClear", one(tcl)); !ok {
 			q.TryClearShape = false
 			unk("TryClear")
 		}
 	}
-	q.LockCovered = q.Known // every recognised shape starts with Lock + defer Unlock
+	// *Anyway adds: retry loops around the classified adds
+	if _, ok := match(f, ki.recv, ki.anyway, one(anywaySrc(ki.add, ki.errFull))); !ok {
+		q.AnywayShape = false
+		unk(ki.anyway)
+	}
+	if isMQ {
+		if _, ok := match(f, ki.recv, ki.ctrlAnyway, one(anywaySrc(ki.addCtrl, ki.errCtrlFull))); !ok {
+			q.AnywayShape = false
+			unk(ki.ctrlAnyway)
+		}
+	}
+	// accessors
+	acc := map[string]string{}
+	switch kind {
+	case "async":
+		acc["IsClosed"] = getterSrc("closed")
+		acc["Size"] = "func (a *T) Size() int {\nreturn a.size\n}"
+	case "mux":
+		acc["IsClosed"], acc["WaitClose"] = getterSrc("closed"), waitSrc("stopChan")
+	case "mq":
+		acc["IsClosed"], acc["IsCleared"] = getterSrc("closed"), getterSrc("cleared")
+		acc["WaitClose"], acc["WaitClear"] = waitSrc("stopChan"), waitSrc("clearChan")
+	}
+	for name, src := range acc {
+		if _, ok := match(f, ki.recv, name, one(src)); !ok {
+			q.AccessorShape = false
+			unk(name)
+		}
+	}
+	// structural facts from the AST
+	guarded := []string{"reqList", "ctrlList", "closed", "cleared"}
+	q.LockCovered = lockCoveredAll(f, ki.recv, "lock", guarded)
+	q.WaitLoop = waitLoops(f, ki.recv, "Len")
+	q.AddPushesBack = callsOnly(f, ki.recv, []string{ki.add, ki.addCtrl}, "PushBack", "PushFront")
+	q.PriorPushesFront = callsOnly(f, ki.recv, []string{ki.prior, ki.priorCtrl}, "PushFront", "PushBack")
+	takers := []string{"Pop", "PopAnyway"}
+	if f.Func(ki.recv, "pop") != nil {
+		takers = []string{"pop"}
+	}
+	q.PopTakesFront = callsOnly(f, ki.recv, takers, "Front", "Back")
+	q.BoundOnlyIfPositive = boundGuarded(f, ki.recv, []string{ki.add, ki.addCtrl})
+	q.MethodSet = methodSetIs(repo, filepath.Dir(ki.file), ki.recv, ki.methods)
+	if !q.LockCovered {
+		q.Why = append(q.Why, "lock-coverage")
+	}
+	if !q.MethodSet {
+		q.Why = append(q.Why, "method-set")
+	}
 	return q
 }
 
@@ -239,18 +407,360 @@ func mixWake(a, b string) string {
 	if a == "unknown" || b == "unknown" {
 		return "unknown"
 	}
-	// the two add methods of MQ differ: report the weaker one (signal < broadcast); "none" is weakest
 	if a == "none" || b == "none" {
 		return "none"
 	}
 	return "signal"
 }
 
+// ---------------------------------------------------------------- structural facts (AST)
+
+func selName(e ast.Expr) (string, bool) { // x.f -> "f"
+	if s, ok := e.(*ast.SelectorExpr); ok {
+		return s.Sel.Name, true
+	}
+	return "", false
+}
+
+// isMutexCall: `<x>.<mu>.<op>()`
+func isMutexCall(st ast.Stmt, mu, op string) bool {
+	es, ok := st.(*ast.ExprStmt)
+	if !ok {
+		return false
+	}
+	return isMutexCallExpr(es.X, mu, op)
+}
+
+func isMutexCallExpr(e ast.Expr, mu, op string) bool {
+	c, ok := e.(*ast.CallExpr)
+	if !ok || len(c.Args) != 0 {
+		return false
+	}
+	s, ok := c.Fun.(*ast.SelectorExpr)
+	if !ok || s.Sel.Name != op {
+		return false
+	}
+	n, ok := selName(s.X)
+	return ok && n == mu
+}
+
+func mentions(n ast.Node, fields []string) bool {
+	found := false
+	ast.Inspect(n, func(x ast.Node) bool {
+		if s, ok := x.(*ast.SelectorExpr); ok {
+			for _, f := range fields {
+				if s.Sel.Name == f {
+					found = true
+				}
+			}
+		}
+		return !found
+	})
+	return found
+}
+
+// walk checks a statement list starting in state `locked`: no return while locked, no guarded field touched while
+// unlocked. It returns the lock state at the end and whether the list is fine. Aliases of guarded (pointer) fields
+// taken before the lock (`buffer := q.buffer`) are treated as guarded names.
+func walk(stmts []ast.Stmt, locked bool, mu string, guarded []string, aliases map[string]bool) (bool, bool) {
+	touches := func(n ast.Node) bool {
+		if mentions(n, guarded) {
+			return true
+		}
+		hit := false
+		ast.Inspect(n, func(x ast.Node) bool {
+			if id, ok := x.(*ast.Ident); ok && aliases[id.Name] {
+				hit = true
+			}
+			return !hit
+		})
+		return hit
+	}
+	for _, st := range stmts {
+		switch s := st.(type) {
+		case *ast.ExprStmt:
+			if isMutexCall(s, mu, "Lock") {
+				if locked {
+					return locked, false
+				}
+				locked = true
+				continue
+			}
+			if isMutexCall(s, mu, "Unlock") {
+				if !locked {
+					return locked, false
+				}
+				locked = false
+				continue
+			}
+			if !locked && touches(s) {
+				return locked, false
+			}
+		case *ast.ReturnStmt:
+			if locked {
+				return locked, false
+			}
+			if touches(s) {
+				return locked, false
+			}
+		case *ast.IfStmt:
+			if !locked && (touches(s.Cond) || (s.Init != nil && touches(s.Init))) {
+				return locked, false
+			}
+			l1, ok := walk(s.Body.List, locked, mu, guarded, aliases)
+			if !ok {
+				return locked, false
+			}
+			l2 := locked
+			if s.Else != nil {
+				var els []ast.Stmt
+				switch e := s.Else.(type) {
+				case *ast.BlockStmt:
+					els = e.List
+				default:
+					els = []ast.Stmt{e}
+				}
+				l2, ok = walk(els, locked, mu, guarded, aliases)
+				if !ok {
+					return locked, false
+				}
+			}
+			// a branch that ends in return does not continue; otherwise both branches must agree
+			if !endsInReturn(s.Body.List) && l1 != locked {
+				return locked, false
+			}
+			if s.Else != nil && l2 != locked {
+				if b, ok := s.Else.(*ast.BlockStmt); !ok || !endsInReturn(b.List) {
+					return locked, false
+				}
+			}
+		case *ast.ForStmt:
+			if !locked && s.Cond != nil && touches(s.Cond) {
+				return locked, false
+			}
+			l1, ok := walk(s.Body.List, locked, mu, guarded, aliases)
+			if !ok || l1 != locked {
+				return locked, false
+			}
+		case *ast.BlockStmt:
+			var ok bool
+			locked, ok = walk(s.List, locked, mu, guarded, aliases)
+			if !ok {
+				return locked, false
+			}
+		default:
+			if !locked && touches(st) {
+				return locked, false
+			}
+		}
+	}
+	return locked, true
+}
+
+func endsInReturn(l []ast.Stmt) bool {
+	if len(l) == 0 {
+		return false
+	}
+	_, ok := l[len(l)-1].(*ast.ReturnStmt)
+	return ok
+}
+
+// lockCovered: "n/a" (touches no guarded field), "defer", "explicit" or "none".
+func lockCovered(fd *ast.FuncDecl, mu string, guarded []string) string {
+	if fd == nil || fd.Body == nil {
+		return "none"
+	}
+	stmts := fd.Body.List
+	aliases := map[string]bool{}
+	i := 0
+	// leading `x := recv.field` copies of (immutable) pointer fields
+	for ; i < len(stmts); i++ {
+		as, ok := stmts[i].(*ast.AssignStmt)
+		if !ok || as.Tok != token.DEFINE || len(as.Lhs) != 1 || len(as.Rhs) != 1 {
+			break
+		}
+		if _, ok := as.Rhs[0].(*ast.SelectorExpr); !ok {
+			break
+		}
+		if id, ok := as.Lhs[0].(*ast.Ident); ok && mentions(as.Rhs[0], guarded) {
+			aliases[id.Name] = true
+		}
+	}
+	rest := stmts[i:]
+	if !mentions(fd.Body, guarded) {
+		return "n/a"
+	}
+	if len(rest) == 0 || !isMutexCall(rest[0], mu, "Lock") {
+		return "none"
+	}
+	if len(rest) > 1 {
+		if d, ok := rest[1].(*ast.DeferStmt); ok && isMutexCallExpr(d.Call, mu, "Unlock") {
+			// deferred unlock: nothing else may touch the mutex
+			bad := false
+			for _, st := range rest[2:] {
+				ast.Inspect(st, func(x ast.Node) bool {
+					if c, ok := x.(*ast.CallExpr); ok && (isMutexCallExpr(c, mu, "Lock") || isMutexCallExpr(c, mu, "Unlock")) {
+						bad = true
+					}
+					return !bad
+				})
+			}
+			if bad {
+				return "none"
+			}
+			return "defer"
+		}
+	}
+	locked, ok := walk(rest, false, mu, guarded, aliases)
+	if !ok || locked {
+		return "none"
+	}
+	return "explicit"
+}
+
+func methodsOf(f *gofacts.File, recv string) []*ast.FuncDecl {
+	var out []*ast.FuncDecl
+	for _, d := range f.AST.Decls {
+		if fd, ok := d.(*ast.FuncDecl); ok && fd.Recv != nil && f.Func(recv, fd.Name.Name) == fd {
+			out = append(out, fd)
+		}
+	}
+	return out
+}
+
+func lockCoveredAll(f *gofacts.File, recv, mu string, guarded []string) bool {
+	ms := methodsOf(f, recv)
+	if len(ms) == 0 {
+		return false
+	}
+	for _, fd := range ms {
+		if lockCovered(fd, mu, guarded) == "none" {
+			return false
+		}
+	}
+	return true
+}
+
+// waitLoops: there is a `.Wait()` call in a method of recv, and every one is directly inside a `for` whose condition
+// is present and re-tests emptiness (a call of lenName() compared with 0).
+func waitLoops(f *gofacts.File, recv, lenName string) bool {
+	n, good := 0, 0
+	for _, fd := range methodsOf(f, recv) {
+		var stack []ast.Node
+		ast.Inspect(fd.Body, func(x ast.Node) bool {
+			if x == nil {
+				stack = stack[:len(stack)-1]
+				return true
+			}
+			stack = append(stack, x)
+			c, ok := x.(*ast.CallExpr)
+			if !ok {
+				return true
+			}
+			s, ok := c.Fun.(*ast.SelectorExpr)
+			if !ok || s.Sel.Name != "Wait" || len(c.Args) != 0 {
+				return true
+			}
+			n++
+			for i := len(stack) - 2; i >= 0; i-- {
+				if _, isIf := stack[i].(*ast.IfStmt); isIf {
+					break // a Wait under an `if` inside the loop is not re-tested unconditionally
+				}
+				if fs, ok := stack[i].(*ast.ForStmt); ok {
+					if fs.Cond != nil && strings.Contains(f.Src(fs.Cond), lenName+"() == 0") {
+						good++
+					}
+					break
+				}
+			}
+			return true
+		})
+	}
+	return n > 0 && n == good
+}
+
+// callsOnly: each named method calls .want( at least once and never .never(.
+func callsOnly(f *gofacts.File, recv string, names []string, want, never string) bool {
+	for _, name := range names {
+		if name == "" {
+			continue
+		}
+		fd := f.Func(recv, name)
+		if fd == nil || fd.Body == nil {
+			return false
+		}
+		w, nv := false, false
+		ast.Inspect(fd.Body, func(x ast.Node) bool {
+			if c, ok := x.(*ast.CallExpr); ok {
+				if s, ok := c.Fun.(*ast.SelectorExpr); ok {
+					if s.Sel.Name == want {
+						w = true
+					}
+					if s.Sel.Name == never {
+						nv = true
+					}
+				}
+			}
+			return true
+		})
+		if !w || nv {
+			return false
+		}
+	}
+	return true
+}
+
+// boundGuarded: every comparison `….Len() >= a.X` in the adds is under a test `a.X > 0` (nested if or `&&`).
+func boundGuarded(f *gofacts.File, recv string, names []string) bool {
+	re := regexp.MustCompile(`(\w+)\.(\w+) > 0 (?:\{ if|&&) (\w+)\.(\w+)\.Len\(\) >= (\w+)\.(\w+) `)
+	for _, name := range names {
+		if name == "" {
+			continue
+		}
+		body := f.Body(recv, name)
+		if strings.Count(body, ".Len() >=") != 1 {
+			return false
+		}
+		m := re.FindStringSubmatch(body)
+		if m == nil || m[2] != m[6] || m[1] != m[5] {
+			return false
+		}
+	}
+	return true
+}
+
+// methodSetIs: the methods declared on type recv in ALL non-test files of the package directory are exactly want.
+func methodSetIs(repo, dir, recv string, want []string) bool {
+	ents, err := os.ReadDir(filepath.Join(repo, dir))
+	if err != nil {
+		return false
+	}
+	var got []string
+	for _, e := range ents {
+		if e.IsDir() || !strings.HasSuffix(e.Name(), ".go") || strings.HasSuffix(e.Name(), "_test.go") {
+			continue
+		}
+		f, err := gofacts.Load(repo, filepath.Join(dir, e.Name()))
+		if err != nil {
+			return false
+		}
+		for _, fd := range methodsOf(f, recv) {
+			got = append(got, fd.Name.Name)
+		}
+	}
+	sort.Strings(got)
+	w := append([]string{}, want...)
+	sort.Strings(w)
+	return strings.Join(got, ",") == strings.Join(w, ",")
+}
+
+// ---------------------------------------------------------------- SyncQueue
+
 // SyncQ describes queue/syncq.SyncQueue.
 type SyncQ struct {
-	PushGuardsClosed, TryPopItemsFirst, Known, Fifo, LockCovered, WaitLoop bool
-	PushWake, CloseWake                                                    string
-	Why                                                                    []string
+	PushGuardsClosed, TryPopItemsFirst, Known, Fifo, LockCovered, WaitLoop, MethodSet bool
+	PushWake, CloseWake                                                               string
+	Why                                                                               []string
 }
 
 func LoadSyncQ(repo string) SyncQ {
@@ -262,65 +772,81 @@ func LoadSyncQ(repo string) SyncQ {
 		return s
 	}
 	unk := func(w string) { s.Known = false; s.Why = append(s.Why, w) }
-	push := f.Body("SyncQueue", "Push")
-	pm := regexp.MustCompile(`^\{ q\.lock\.Lock\(\) if !q\.closed \{ q\.buffer\.Add\(v\)( q\.popable\.(Signal|Broadcast)\(\))? \} q\.lock\.Unlock\(\) \}$`).FindStringSubmatch(push)
-	pm2 := regexp.MustCompile(`^\{ q\.lock\.Lock\(\) q\.buffer\.Add\(v\)( q\.popable\.(Signal|Broadcast)\(\))? q\.lock\.Unlock\(\) \}$`).FindStringSubmatch(push)
-	switch {
-	case pm != nil:
-		s.PushGuardsClosed = true
-		s.PushWake = "none"
-		if pm[1] != "" {
-			s.PushWake = wakeOf(pm[2])
+	wk := func(w string) string {
+		switch w {
+		case "broadcast":
+			return "q.popable.Broadcast()\n"
+		case "signal":
+			return "q.popable.Signal()\n"
 		}
-	case pm2 != nil:
-		s.PushGuardsClosed = false
-		s.PushWake = "none"
-		if pm2[1] != "" {
-			s.PushWake = wakeOf(pm2[2])
-		}
-	default:
+		return ""
+	}
+	var pushVs, closeVs []variant
+	for _, w := range wakes {
+		pushVs = append(pushVs,
+			variant{"func (q *T) Push(v interface{}) {\nq.lock.Lock()\nif !q.closed {\nq.buffer.Add(v)\n" + wk(w) + "}\nq.lock.Unlock()\n}", map[string]string{"guard": "true", "wake": w}},
+			variant{"func (q *T) Push(v interface{}) {\nq.lock.Lock()\nq.buffer.Add(v)\n" + wk(w) + "q.lock.Unlock()\n}", map[string]string{"guard": "false", "wake": w}})
+		closeVs = append(closeVs, variant{"func (q *T) Close() {\nq.lock.Lock()\nif !q.closed {\nq.closed = true\n" + wk(w) + "}\nq.lock.Unlock()\n}", map[string]string{"wake": w}})
+	}
+	if v, ok := match(f, "SyncQueue", "Push", pushVs); ok {
+		s.PushGuardsClosed, s.PushWake = v["guard"] == "true", v["wake"]
+	} else {
 		unk("Push")
 	}
-	cm := regexp.MustCompile(`^\{ q\.lock\.Lock\(\) if !q\.closed \{ q\.closed = true( q\.popable\.(Signal|Broadcast)\(\))? \} q\.lock\.Unlock\(\) \}$`).FindStringSubmatch(f.Body("SyncQueue", "Close"))
-	if cm != nil {
-		s.CloseWake = "none"
-		if cm[1] != "" {
-			s.CloseWake = wakeOf(cm[2])
-		}
+	if v, ok := match(f, "SyncQueue", "Close", closeVs); ok {
+		s.CloseWake = v["wake"]
 	} else {
 		unk("Close")
 	}
-	pop := `{ c := q.popable buffer := q.buffer q.lock.Lock() for buffer.Length() == 0 && !q.closed { c.Wait() } if buffer.Length() > 0 { v = buffer.Peek() buffer.Remove() } q.lock.Unlock() return }`
-	if f.Body("SyncQueue", "Pop") != pop {
+	pop := "func (q *T) Pop() (v interface{}) {\nc := q.popable\nbuffer := q.buffer\nq.lock.Lock()\nfor buffer.Length() == 0 && !q.closed {\nc.Wait()\n}\nif buffer.Length() > 0 {\nv = buffer.Peek()\nbuffer.Remove()\n}\nq.lock.Unlock()\nreturn\n}"
+	if _, ok := match(f, "SyncQueue", "Pop", one(pop)); !ok {
 		unk("Pop")
 	}
-	tp := `{ buffer := q.buffer q.lock.Lock() if buffer.Length() > 0 { v = buffer.Peek() buffer.Remove() ok = true } else if q.closed { ok = true } q.lock.Unlock() return }`
-	tp2 := `{ buffer := q.buffer q.lock.Lock() if q.closed { ok = true } else if buffer.Length() > 0 { v = buffer.Peek() buffer.Remove() ok = true } q.lock.Unlock() return }`
-	switch f.Body("SyncQueue", "TryPop") {
-	case tp:
-		s.TryPopItemsFirst = true
-	case tp2:
-		s.TryPopItemsFirst = false
-	default:
+	tps := []variant{
+		{"func (q *T) TryPop() (v interface{}, ok bool) {\nbuffer := q.buffer\nq.lock.Lock()\nif buffer.Length() > 0 {\nv = buffer.Peek()\nbuffer.Remove()\nok = true\n} else if q.closed {\nok = true\n}\nq.lock.Unlock()\nreturn\n}", map[string]string{"itemsFirst": "true"}},
+		{"func (q *T) TryPop() (v interface{}, ok bool) {\nbuffer := q.buffer\nq.lock.Lock()\nif q.closed {\nok = true\n} else if buffer.Length() > 0 {\nv = buffer.Peek()\nbuffer.Remove()\nok = true\n}\nq.lock.Unlock()\nreturn\n}", map[string]string{"itemsFirst": "false"}},
+		{"func (q *T) TryPop() (v interface{}, ok bool) {\nbuffer := q.buffer\nq.lock.Lock()\nif q.closed {\nreturn nil, true\n}\nif buffer.Length() > 0 {\nv = buffer.Peek()\nbuffer.Remove()\nok = true\n}\nreturn\n}", map[string]string{"itemsFirst": "false"}},
+	}
+	if v, ok := match(f, "SyncQueue", "TryPop", tps); ok {
+		s.TryPopItemsFirst = v["itemsFirst"] == "true"
+	} else {
 		unk("TryPop")
 	}
-	if f.Body("SyncQueue", "Len") != `{ q.lock.Lock() l = q.buffer.Length() q.lock.Unlock() return }` {
+	lens := []variant{
+		{"func (q *T) Len() (l int) {\nq.lock.Lock()\nl = q.buffer.Length()\nq.lock.Unlock()\nreturn\n}", nil},
+		{"func (q *T) Len() int {\nq.lock.Lock()\ndefer q.lock.Unlock()\nreturn q.buffer.Length()\n}", nil},
+	}
+	if _, ok := match(f, "SyncQueue", "Len", lens); !ok {
 		unk("Len")
 	}
 	nq := f.Body("", "NewSyncQueue")
 	if !gofacts.Has(nq, "buffer: queue.New()") || !gofacts.Has(nq, "ch.popable = sync.NewCond(&ch.lock)") {
 		unk("NewSyncQueue")
 	}
-	s.Fifo, s.LockCovered, s.WaitLoop = s.Known, s.Known, s.Known
+	// structural
+	guarded := []string{"buffer", "closed"}
+	s.LockCovered = lockCoveredAll(f, "SyncQueue", "lock", guarded)
+	s.WaitLoop = waitLoops(f, "SyncQueue", "Length")
+	s.Fifo = callsOnly(f, "SyncQueue", []string{"Push"}, "Add", "Remove") && callsOnly(f, "SyncQueue", []string{"Pop", "TryPop"}, "Peek", "Add") &&
+		callsOnly(f, "SyncQueue", []string{"Pop", "TryPop"}, "Remove", "Get")
+	s.MethodSet = methodSetIs(repo, "queue/syncq", "SyncQueue", []string{"Close", "Len", "Pop", "Push", "TryPop"})
+	if !s.LockCovered {
+		s.Why = append(s.Why, "lock-coverage")
+	}
+	if !s.MethodSet {
+		s.Why = append(s.Why, "method-set")
+	}
 	return s
 }
+
+// ---------------------------------------------------------------- PriQueue
 
 // PriQ describes queue/priq.PriQueue.
 type PriQ struct {
 	HigherFirst, OlderFirstOnTie, FullAtCap, Known bool
-	SeqIncrements, Heap                            bool
+	SeqIncrements, Heap, LockCovered, MethodSet    bool
 	// C13
-	PushSignals  bool // Push calls tyrSignal after every successful push (after Unlock)
+	PushSignals  bool // Push calls tyrSignal after every successful push
 	PopResignals bool // Pop calls tyrSignal iff entries remain
 	TrySignalNB  bool // tyrSignal is a non-blocking send on the signal channel
 	ChanCap1     bool // signal channel has capacity 1
@@ -328,7 +854,7 @@ type PriQ struct {
 }
 
 func LoadPriQ(repo string) PriQ {
-	p := PriQ{Known: true, HigherFirst: true, OlderFirstOnTie: true, FullAtCap: true}
+	p := PriQ{Known: true, HigherFirst: true, OlderFirstOnTie: true, FullAtCap: true, PushSignals: true, PopResignals: true}
 	f, err := gofacts.Load(repo, "queue/priq/priority_queue.go")
 	if err != nil {
 		p.Known = false
@@ -336,64 +862,89 @@ func LoadPriQ(repo string) PriQ {
 		return p
 	}
 	unk := func(w string) { p.Known = false; p.Why = append(p.Why, w) }
-	less := f.Body("EntryList", "Less")
-	lm := regexp.MustCompile(`^\{ pi := e\[i\]\.entry\.GetPriority\(\) pj := e\[j\]\.entry\.GetPriority\(\) if pi == pj \{ return e\[i\]\.seq (<|>) e\[j\]\.seq \} else \{ return pi (<|>) pj \} \}$`).FindStringSubmatch(less)
-	if lm != nil {
-		p.OlderFirstOnTie = lm[1] == "<"
-		p.HigherFirst = lm[2] == ">"
+	var lessVs, pushVs []variant
+	for _, so := range []string{"<", ">"} {
+		for _, po := range []string{">", "<"} {
+			lessVs = append(lessVs, variant{"func (e T) Less(i, j int) bool {\npi := e[i].entry.GetPriority()\npj := e[j].entry.GetPriority()\nif pi == pj {\nreturn e[i].seq " + so + " e[j].seq\n} else {\nreturn pi " + po + " pj\n}\n}",
+				map[string]string{"older": fmt.Sprint(so == "<"), "higher": fmt.Sprint(po == ">")}})
+		}
+	}
+	if v, ok := match(f, "EntryList", "Less", lessVs); ok {
+		p.OlderFirstOnTie, p.HigherFirst = v["older"] == "true", v["higher"] == "true"
 	} else {
 		unk("Less")
 	}
-	push := f.Body("PriQueue", "Push")
-	pm := regexp.MustCompile(`^\{ pq\.mu\.Lock\(\) if len\(pq\.entries\) (>=|>) pq\.capacity \{ pq\.mu\.Unlock\(\) return ErrQueueIsFull \} pq\.curSeq\+\+ heap\.Push\(&pq\.entries, &wrapEntry\{ ?entry: e, seq: pq\.curSeq,? ?\}\) pq\.mu\.Unlock\(\)( pq\.tyrSignal\(\))? return nil \}$`).FindStringSubmatch(push)
-	if pm != nil {
-		p.FullAtCap = pm[1] == ">="
-		p.PushSignals = pm[2] != ""
-		p.SeqIncrements = true
+	for _, cmp := range []string{">=", ">"} {
+		for _, sig := range []bool{true, false} {
+			for _, lit := range []string{"&wrapEntry{entry: e, seq: pq.curSeq}", "&wrapEntry{\nentry: e,\nseq: pq.curSeq,\n}"} { // one line or one field per line
+				s := "func (pq *T) Push(e IEntry) error {\npq.mu.Lock()\nif len(pq.entries) " + cmp + " pq.capacity {\npq.mu.Unlock()\nreturn ErrQueueIsFull\n}\npq.curSeq++\nheap.Push(&pq.entries, " + lit + ")\npq.mu.Unlock()\n"
+				if sig {
+					s += "pq.tyrSignal()\n"
+				}
+				pushVs = append(pushVs, variant{s + "return nil\n}", map[string]string{"atCap": fmt.Sprint(cmp == ">="), "signals": fmt.Sprint(sig)}})
+			}
+		}
+	}
+	if v, ok := match(f, "PriQueue", "Push", pushVs); ok {
+		p.FullAtCap, p.PushSignals, p.SeqIncrements = v["atCap"] == "true", v["signals"] == "true", true
 	} else {
 		unk("Push")
 	}
-	pop := f.Body("PriQueue", "Pop")
-	popA := `{ pq.mu.Lock() if len(pq.entries) == 0 { pq.mu.Unlock() return nil } e := heap.Pop(&pq.entries).(*wrapEntry) needSignal := len(pq.entries) > 0 pq.mu.Unlock() if needSignal { pq.tyrSignal() } return e.entry }`
-	popB := `{ pq.mu.Lock() if len(pq.entries) == 0 { pq.mu.Unlock() return nil } e := heap.Pop(&pq.entries).(*wrapEntry) pq.mu.Unlock() return e.entry }`
-	popC := `{ pq.mu.Lock() if len(pq.entries) == 0 { pq.mu.Unlock() return nil } e := heap.Pop(&pq.entries).(*wrapEntry) needSignal := len(pq.entries) > 0 pq.mu.Unlock() return e.entry }`
-	switch pop {
-	case popA:
-		p.PopResignals = true
-	case popB, popC:
-		p.PopResignals = false
-	default:
-		if strings.Contains(pop, "heap.Pop(&pq.entries)") && !strings.Contains(pop, "tyrSignal") {
-			p.PopResignals = false
-		}
+	head := "func (pq *T) Pop() IEntry {\npq.mu.Lock()\nif len(pq.entries) == 0 {\npq.mu.Unlock()\nreturn nil\n}\ne := heap.Pop(&pq.entries).(*wrapEntry)\n"
+	popVs := []variant{
+		{head + "needSignal := len(pq.entries) > 0\npq.mu.Unlock()\nif needSignal {\npq.tyrSignal()\n}\nreturn e.entry\n}", map[string]string{"resignal": "true"}},
+		{head + "pq.mu.Unlock()\nreturn e.entry\n}", map[string]string{"resignal": "false"}},
+		{head + "needSignal := len(pq.entries) > 0\npq.mu.Unlock()\n_ = needSignal\nreturn e.entry\n}", map[string]string{"resignal": "false"}},
+	}
+	if v, ok := match(f, "PriQueue", "Pop", popVs); ok {
+		p.PopResignals = v["resignal"] == "true"
+	} else {
 		unk("Pop")
 	}
-	if f.Body("PriQueue", "tyrSignal") == `{ select { case pq.signal <- struct{}{}: default: } }` {
+	if _, ok := match(f, "PriQueue", "tyrSignal", one("func (pq *T) tyrSignal() {\nselect {\ncase pq.signal <- struct{}{}:\ndefault:\n}\n}")); ok {
 		p.TrySignalNB = true
 	} else {
 		unk("tyrSignal")
 	}
-	if gofacts.Has(f.Body("", "NewPriQueue"), "p.signal = make(chan struct{}, 1)") && gofacts.Has(f.Body("", "NewPriQueue"), "p.capacity = capability") {
+	nb := f.Body("", "NewPriQueue")
+	if gofacts.Has(nb, "p.signal = make(chan struct{}, 1)") && gofacts.Has(nb, "p.capacity = capability") {
 		p.ChanCap1 = true
 	} else {
 		unk("NewPriQueue")
 	}
-	heapOK := f.Body("EntryList", "Len") == `{ return len(e) }` &&
-		f.Body("EntryList", "Swap") == `{ e[i], e[j] = e[j], e[i] }` &&
-		f.Body("EntryList", "Push") == `{ *e = append(*e, x.(*wrapEntry)) }` &&
-		f.Body("EntryList", "Pop") == `{ head := (*e)[len(*e)-1] (*e)[len(*e)-1] = nil *e = (*e)[:len(*e)-1] return head }`
-	if !heapOK {
-		unk("EntryList")
+	glue := map[string]string{
+		"Len":  "func (e T) Len() int {\nreturn len(e)\n}",
+		"Swap": "func (e T) Swap(i, j int) {\ne[i], e[j] = e[j], e[i]\n}",
+		"Push": "func (e *T) Push(x interface{}) {\n*e = append(*e, x.(*wrapEntry))\n}",
+		"Pop":  "func (e *T) Pop() interface{} {\nhead := (*e)[len(*e)-1]\n(*e)[len(*e)-1] = nil\n*e = (*e)[:len(*e)-1]\nreturn head\n}",
 	}
-	p.Heap = heapOK
-	if f.Body("PriQueue", "Len") != `{ pq.mu.Lock() defer pq.mu.Unlock() return len(pq.entries) }` {
+	p.Heap = true
+	for name, src := range glue {
+		if _, ok := match(f, "EntryList", name, one(src)); !ok {
+			p.Heap = false
+			unk("EntryList." + name)
+		}
+	}
+	lens := []variant{{"func (pq *T) Len() int {\npq.mu.Lock()\ndefer pq.mu.Unlock()\nreturn len(pq.entries)\n}", nil}}
+	if _, ok := match(f, "PriQueue", "Len", lens); !ok {
 		unk("Len")
 	}
-	if f.Body("PriQueue", "WaitCh") != `{ return pq.signal }` {
+	if _, ok := match(f, "PriQueue", "WaitCh", one("func (pq *T) WaitCh() <-chan struct{} {\nreturn pq.signal\n}")); !ok {
 		unk("WaitCh")
+	}
+	p.LockCovered = lockCoveredAll(f, "PriQueue", "mu", []string{"entries", "curSeq"})
+	p.MethodSet = methodSetIs(repo, "queue/priq", "PriQueue", []string{"Len", "Pop", "Push", "WaitCh", "tyrSignal"}) &&
+		methodSetIs(repo, "queue/priq", "EntryList", []string{"Len", "Less", "Pop", "Push", "Swap"})
+	if !p.LockCovered {
+		p.Why = append(p.Why, "lock-coverage")
+	}
+	if !p.MethodSet {
+		p.Why = append(p.Why, "method-set")
 	}
 	return p
 }
+
+// ---------------------------------------------------------------- rendering lean/Nv/Gen/C12.lean and C13.lean
 
 func lb(v bool) string {
 	if v {
@@ -406,32 +957,64 @@ func shapeLean(q ListQ) string {
 	return fmt.Sprintf("⟨%s, %s, %s, %s, %s⟩", lb(q.AddClosedFirst), lb(q.PriorBounded), lb(q.PopChecksClosed), lb(q.CtrlFirst), lb(q.Known))
 }
 
+type all struct {
+	qs []ListQ
+	sq SyncQ
+	pr PriQ
+}
+
+func load(repo string) all {
+	var a all
+	for _, k := range []string{"q", "async", "mux", "mq"} {
+		a.qs = append(a.qs, LoadListQ(repo, k))
+	}
+	a.sq, a.pr = LoadSyncQ(repo), LoadPriQ(repo)
+	return a
+}
+
+func (a all) every(f func(ListQ) bool) bool {
+	for _, q := range a.qs {
+		if !f(q) {
+			return false
+		}
+	}
+	return true
+}
+
+func (a all) why() []string {
+	var why []string
+	for _, q := range a.qs {
+		for _, w := range q.Why {
+			why = append(why, q.Name+"."+w)
+		}
+	}
+	for _, w := range a.sq.Why {
+		why = append(why, "syncq."+w)
+	}
+	for _, w := range a.pr.Why {
+		why = append(why, "priq."+w)
+	}
+	return why
+}
+
 // GenC12 renders lean/Nv/Gen/C12.lean (used by `c12 extract`, and by `c13 extract` whose oracle runs the same shapes)
 // and a one-line summary.
 func GenC12(repo string) (text, summary string) {
-	var qs []ListQ
-	all := func(f func(ListQ) bool) bool {
-		for _, q := range qs {
-			if !f(q) {
-				return false
-			}
-		}
-		return true
-	}
-	for _, k := range []string{"q", "async", "mux", "mq"} {
-		qs = append(qs, LoadListQ(repo, k))
-	}
-	sq := LoadSyncQ(repo)
-	pr := LoadPriQ(repo)
+	a := load(repo)
 	facts := []bool{
-		all(func(q ListQ) bool { return q.AddPushesBack }),
-		all(func(q ListQ) bool { return q.PriorPushesFront }),
-		all(func(q ListQ) bool { return q.PopTakesFront }),
-		all(func(q ListQ) bool { return q.AnywayNoClosedTest }),
-		all(func(q ListQ) bool { return q.CloseIdempotent }),
-		qs[3].TryCloseShape, qs[3].TryClearShape,
-		all(func(q ListQ) bool { return q.BoundOnlyIfPositive }),
-		sq.Fifo, pr.SeqIncrements, pr.Heap,
+		a.every(func(q ListQ) bool { return q.AddPushesBack }),
+		a.every(func(q ListQ) bool { return q.PriorPushesFront }),
+		a.every(func(q ListQ) bool { return q.PopTakesFront }),
+		a.every(func(q ListQ) bool { return q.AnywayNoClosedTest }),
+		a.every(func(q ListQ) bool { return q.CloseIdempotent }),
+		a.qs[3].TryCloseShape, a.qs[3].TryClearShape,
+		a.every(func(q ListQ) bool { return q.BoundOnlyIfPositive }),
+		a.sq.Fifo, a.pr.SeqIncrements, a.pr.Heap,
+		a.every(func(q ListQ) bool { return q.AnywayShape }),
+		a.every(func(q ListQ) bool { return q.AccessorShape }),
+		a.every(func(q ListQ) bool { return q.ClosesStopChan }),
+		a.every(func(q ListQ) bool { return q.LockCovered }) && a.sq.LockCovered && a.pr.LockCovered,
+		a.every(func(q ListQ) bool { return q.MethodSet }) && a.sq.MethodSet && a.pr.MethodSet,
 	}
 	var fs []string
 	for _, f := range facts {
@@ -447,23 +1030,51 @@ def cfg : Nv.C12.Cfg :=
     priq := ⟨%s, %s, %s, %s⟩ }
 def facts : Nv.C12.Facts := ⟨%s⟩
 end Nv.Gen.C12
-`, shapeLean(qs[0]), shapeLean(qs[1]), shapeLean(qs[2]), shapeLean(qs[3]),
-		lb(sq.PushGuardsClosed), lb(sq.TryPopItemsFirst), lb(sq.Known),
-		lb(pr.HigherFirst), lb(pr.OlderFirstOnTie), lb(pr.FullAtCap), lb(pr.Known), strings.Join(fs, ", "))
-	var why []string
-	for _, q := range qs {
-		for _, w := range q.Why {
-			why = append(why, q.Name+"."+w)
-		}
-	}
-	for _, w := range sq.Why {
-		why = append(why, "syncq."+w)
-	}
-	for _, w := range pr.Why {
-		why = append(why, "priq."+w)
-	}
+`, shapeLean(a.qs[0]), shapeLean(a.qs[1]), shapeLean(a.qs[2]), shapeLean(a.qs[3]),
+		lb(a.sq.PushGuardsClosed), lb(a.sq.TryPopItemsFirst), lb(a.sq.Known),
+		lb(a.pr.HigherFirst), lb(a.pr.OlderFirstOnTie), lb(a.pr.FullAtCap), lb(a.pr.Known), strings.Join(fs, ", "))
 	summary = fmt.Sprintf("extract C12: shape(addClosedFirst,priorBounded,popChecksClosed,ctrlFirst,known) q=%s async=%s mux=%s mq=%s syncq=%v,%v,%v priq(higherFirst,olderFirstOnTie,fullAtCap,known)=%v,%v,%v,%v facts=%s unrecognised=%v",
-		shapeLean(qs[0]), shapeLean(qs[1]), shapeLean(qs[2]), shapeLean(qs[3]), sq.PushGuardsClosed, sq.TryPopItemsFirst, sq.Known,
-		pr.HigherFirst, pr.OlderFirstOnTie, pr.FullAtCap, pr.Known, strings.Join(fs, ","), why)
+		shapeLean(a.qs[0]), shapeLean(a.qs[1]), shapeLean(a.qs[2]), shapeLean(a.qs[3]), a.sq.PushGuardsClosed, a.sq.TryPopItemsFirst, a.sq.Known,
+		a.pr.HigherFirst, a.pr.OlderFirstOnTie, a.pr.FullAtCap, a.pr.Known, strings.Join(fs, ","), a.why())
+	return text, summary
+}
+
+func wkLean(s string) string {
+	switch s {
+	case "broadcast", "signal", "none":
+		return "." + s
+	}
+	return ".unknown"
+}
+
+// GenC13 renders lean/Nv/Gen/C13.lean and a one-line summary.
+func GenC13(repo string) (text, summary string) {
+	a := load(repo)
+	var wcs, cfs []string
+	for _, q := range a.qs {
+		wcs = append(wcs, fmt.Sprintf("⟨%s, %s, %s, %s⟩", wkLean(q.AddWake), wkLean(q.PriorWake), wkLean(q.CloseWake), wkLean(q.TryCloseWake)))
+		cfs = append(cfs, fmt.Sprintf("⟨%s, %s⟩", lb(q.LockCovered), lb(q.WaitLoop)))
+	}
+	// SyncQueue has no prior add: the model never uses `.prior` for it; `ProvedWake` needs a waking value there, so the
+	// push primitive is repeated
+	wcs = append(wcs, fmt.Sprintf("⟨%s, %s, %s, .none⟩", wkLean(a.sq.PushWake), wkLean(a.sq.PushWake), wkLean(a.sq.CloseWake)))
+	cfs = append(cfs, fmt.Sprintf("⟨%s, %s⟩", lb(a.sq.LockCovered), lb(a.sq.WaitLoop)))
+	stop := a.every(func(q ListQ) bool { return q.ClosesStopChan })
+	msets := a.every(func(q ListQ) bool { return q.MethodSet }) && a.sq.MethodSet && a.pr.MethodSet
+	text = fmt.Sprintf(`import Nv.Model.C13
+set_option linter.unusedVariables false
+/-! GENERATED by `+"`c13 extract`"+` from syncx/pipe/{q,async,mux,mq}, queue/syncq, queue/priq — do not edit. -/
+namespace Nv.Gen.C13
+def cfg : Nv.C13.Cfg :=
+  { q := %s, async := %s, mux := %s, mq := %s, syncq := %s,
+    priq := ⟨%s, %s⟩ }
+def facts : Nv.C13.Facts :=
+  { q := %s, async := %s, mux := %s, mq := %s, syncq := %s,
+    priq := ⟨%s, %s, %s⟩, closesStopChan := %s, methodSets := %s, priqLockCovered := %s }
+end Nv.Gen.C13
+`, wcs[0], wcs[1], wcs[2], wcs[3], wcs[4], lb(a.pr.PushSignals), lb(a.pr.PopResignals),
+		cfs[0], cfs[1], cfs[2], cfs[3], cfs[4], lb(a.pr.TrySignalNB), lb(a.pr.ChanCap1), lb(a.pr.Known), lb(stop), lb(msets), lb(a.pr.LockCovered))
+	summary = fmt.Sprintf("extract C13: wake(add,prior,close,tryClose) q=%s async=%s mux=%s mq=%s syncq=%s priq(pushSignals,popResignals)=%v,%v facts(lockCovered,waitLoop)=%s priqfacts=%v,%v,%v closesStopChan=%v methodSets=%v unrecognised=%v",
+		wcs[0], wcs[1], wcs[2], wcs[3], wcs[4], a.pr.PushSignals, a.pr.PopResignals, strings.Join(cfs, ""), a.pr.TrySignalNB, a.pr.ChanCap1, a.pr.Known, stop, msets, a.why())
 	return text, summary
 }
